@@ -4,16 +4,22 @@ type vfKeyT struct{ n int }
 
 var vfPtrKeys = []*vfKeyT{{0}, {1}, {2}}
 
+// distinct pointers whose pointees are equal: still three different keys
+var vfTwinKeys = []*vfKeyT{{7}, {7}, {7}}
+
 // vfKey builds a property key of a symbolic kind and value: equal numbers of distinct types are
 // distinct keys; pointer keys are distinguished by identity.
 func vfKey(name string) (interface{}, int, int) {
-	kind := vfChoice(name+".kind", 3)
+	kind := vfChoice(name+".kind", 4)
 	v := vfInt(name+".v", 0, 2)
 	switch kind {
 	case 0:
 		return v, kind, v
 	case 1:
 		return int64(v), kind, v
+	case 3:
+		vc := vfConcrete(v)
+		return vfTwinKeys[vc], kind, vc
 	}
 	vc := vfConcrete(v)
 	return vfPtrKeys[vc], kind, vc
@@ -188,6 +194,18 @@ func VerifC12_owners() {
 		} else {
 			vfAssert(o.GetProperty(key) == nil, "other-owner-unchanged")
 		}
+	}
+	// handles taken before the headers are replaced by others
+	if vfChoice("reheader", 2) == 1 {
+		hb := t.Column(2)
+		hb.SetProperty(&vfKeyT{30}, 1)
+		t.AddHeaders("renamed-a", "renamed-b")
+		vfAssert(t.Column(2).GetProperty(&vfKeyT{30}) == nil, "distinct-pointer-keys-are-distinct")
+		k30 := &vfKeyT{31}
+		hb.SetProperty(k30, 2)
+		vfAssert(t.Column(2).GetProperty(k30) == 2, "old-handle-addresses-same-column")
+		t.Column(2).SetProperty(k30, 3)
+		vfAssert(hb.GetProperty(k30) == 3, "old-handle-sees-later-sets")
 	}
 	// handles taken before growth
 	h0, h1 := t.Column(0), t.Column(1)
